@@ -389,3 +389,31 @@ func boolU64(b bool) uint64 {
 	}
 	return 0
 }
+
+// hostileLayout copies the given byte strings back to back into ONE buffer and
+// returns them as sub-slices whose capacity runs into whatever follows (the next
+// input, then 32 canary bytes).  A callee that appends to, or writes through, an
+// input slice corrupts its neighbour.  check reports any change of the buffer.
+func hostileLayout(in ...[]byte) (out [][]byte, check func() string) {
+	total := 0
+	for _, b := range in {
+		total += len(b)
+	}
+	buf := make([]byte, 0, total+32)
+	for _, b := range in {
+		buf = append(buf, b...)
+	}
+	buf = append(buf, bytes.Repeat([]byte{0xa5}, 32)...)
+	keep := append([]byte{}, buf...)
+	off := 0
+	for _, b := range in {
+		out = append(out, buf[off:off+len(b)])
+		off += len(b)
+	}
+	return out, func() string {
+		if !bytes.Equal(buf, keep) {
+			return fmt.Sprintf("the caller's buffer changed: before %x, after %x", keep, buf)
+		}
+		return ""
+	}
+}
